@@ -81,6 +81,8 @@ def main():
         "engines": [
             {"name": "heap", "path": "/verif/spec/Heap.tla", "serves_properties": ["C10", "C02", "C16"],
              "kind_free_text": "TLA+ spec of allocator/collector; TLC model checking, behaviour generation (-simulate), trace validation of the real gc.c"},
+            {"name": "core", "path": "/verif/spec/Core.tla", "serves_properties": ["C03", "C05", "C06", "C09"],
+             "kind_free_text": "definitional CESK machine in TLA+ run by TLC on generated programs; outputs of the real interpreter compared by TLC"},
             {"name": "sched", "path": "/verif/spec/Sched.tla", "serves_properties": ["C11"],
              "kind_free_text": "TLA+ transcription of the green-thread scheduler and SRFI 18 primitives; MC with liveness; trace validation under forced time slices"},
         ],
@@ -100,7 +102,7 @@ def main():
 
 
 NA = {}
-APPROVED = ["C11"]
+APPROVED = ["C11", "C03", "C05", "C06", "C09"]
 
 if __name__ == "__main__":
     main()
